@@ -421,6 +421,14 @@ def rule_source_helpers(check, rules):
                         elif atom[1] in ('<', '<=') and atom[3][0] == 'S' and atom[3][1] == ret:
                             larger = (not pol)
                 key = '_signatures:merge_depths|%s' % lits_text(sp.lits)
+                blind = [x for x in sp.effects if x.kind == 'mut' and x.target == ret and x.op in ('setdefault', 'update', 'ior')]
+                if blind:
+                    # (round 8) an entry written without looking at the depth that is there: setdefault keeps the left one also when the
+                    # right one is smaller, update takes the right one also when it is larger
+                    check.violation(rules['arith'], st, 'an entry is written with .%s(), which does not compare the two depths: a callable reached twice '
+                                    'does not end up with the smaller one' % blind[0].op, key=key, guards=lits_text(sp.lits),
+                                    witness="merge_depths({f: 3}, {f: 1}) == {f: 1} and merge_depths({f: 1}, {f: 3}) == {f: 1}")
+                    continue
                 if isin is True and larger is True:
                     if sets:
                         check.violation(rules['arith'], st, 'an existing smaller depth is overwritten by a larger one', key=key,
